@@ -364,7 +364,7 @@ func c18(r *core.Report) {
 	// ---- C18-EVICT-SCAN: the victim comes from the first bucket, counted from index 0 (the farthest from the
 	// locus), that holds more than the per-bucket minimum. The search therefore starts at bucket 0 every time:
 	// a search that starts at a remembered or derived index skips farther buckets that have grown since.
-	r.Rule("C18-EVICT-SCAN", "every search for a bucket above its minimum walks the buckets from index 0", 2)
+	r.Rule("C18-EVICT-SCAN", "every search for a bucket above its minimum walks the buckets from index 0", 1)
 	{
 		minF := needField(r, "p/kademlia", "Cache", "minPerBucket")
 		bucketsFld := needField(r, "p/kademlia", "Cache", "buckets")
@@ -441,8 +441,8 @@ func c18(r *core.Report) {
 				r.Check(okStart, "C18-EVICT-SCAN", c, p.Pos(b.Pos()), "the buckets are walked from index 0 upward", "the search for a bucket that can spare an entry does not start at bucket 0 ("+why+"): a farther bucket that holds more than its minimum is skipped and a closer entry is evicted while the farther one is kept")
 			}
 		}
-		if n < 2 {
-			r.Fail("C18-EVICT-SCAN: found %d comparisons of a bucket's length with minPerBucket, 2 confirmed on the pinned tree (evict, AcceptingPrefixLen)", n)
+		if n < 1 {
+			r.Fail("C18-EVICT-SCAN: found no comparison of a bucket's length with minPerBucket (evict and AcceptingPrefixLen have one each on the pinned tree, or share a helper)")
 		}
 	}
 
